@@ -49,7 +49,7 @@ def prefs_view(name):
             if 'key_expiration' in p else None}
 
 
-OPS = ['add_uid_B', 'add_uid_img', 'add_sub_sign', 'add_sub_enc', 'recert_A_P2', 'recert_A_P4', 'recert_A_P3_same_second', 'recert_A_P2_generic_same_second', 'recert_B_P3', 'third_party_A', 'third_party_A_local', 'third_party_A_keyid_only',
+OPS = ['add_uid_B', 'add_uid_img', 'add_uid_empty', 'add_sub_sign', 'add_sub_enc', 'recert_A_P2', 'recert_A_P4', 'recert_A_P3_same_second', 'recert_A_P2_generic_same_second', 'recert_B_P3', 'third_party_A', 'third_party_A_local', 'third_party_A_keyid_only',
        'revoke_uid_A', 'revoke_sub0', 'revoke_key', 'add_revoker', 'del_uid_B', 'protect', 'derive_pub', 'copy', 'export_import_bin', 'export_import_asc',
        'direct_sig', 'direct_third_local', 'release_pub']
 
@@ -73,6 +73,8 @@ class Model(object):
             return 'B' not in u
         if op == 'add_uid_img':
             return 'IMG' not in u
+        if op == 'add_uid_empty':
+            return 'E' not in u
         if op == 'add_sub_sign':
             return not any(s['kind'] == 'sign' for s in self.subs)
         if op == 'add_sub_enc':
@@ -129,7 +131,7 @@ class World(object):
         return K.dt(self.t)
 
     def _uid(self, name):
-        want = {'A': UID_A, 'B': UID_B}.get(name)
+        want = {'A': UID_A, 'B': UID_B, 'E': ''}.get(name)
         for u in A.identities(self.key):
             if name == 'IMG' and u.is_ua:
                 return u
@@ -167,6 +169,11 @@ class World(object):
             t = self.tick()
             key.add_uid(pgpy.PGPUID.new(self.lend(bytearray(JPEG))), created=t, **self.lend(prefs('P3')))
             m.uids['IMG'] = {'certs': [(self.t, 'P3')], 'revoked': False, 'third': [], 'present': True}
+        elif op == 'add_uid_empty':
+            # the empty user id: a zero-length packet, certified like any other (its framing octets are part of the hash input)
+            t = self.tick()
+            key.add_uid(pgpy.PGPUID.new(''), created=t, **self.lend(prefs('P3')))
+            m.uids['E'] = {'certs': [(self.t, 'P3')], 'revoked': False, 'third': [], 'present': True}
         elif op in ('add_sub_sign', 'add_sub_enc'):
             t = self.tick()
             name = 'ed25519c' if op == 'add_sub_sign' else 'cv25519a'
